@@ -324,7 +324,7 @@ pub fn c03_timing(prop: &'static str, lm: &LogicalMovie, movie: &Movie, has_audi
             }
         }
         let sum: u64 = t.samples.iter().map(|s| s.duration as u64).sum();
-        if sum < (1u64 << 32) && t.mdhd_duration != sum {
+        if t.mdhd_duration != sum {
             out.push(v(prop, "media-duration", name, format!("{} track: declared media duration {} but sample durations sum to {}", name, t.mdhd_duration, sum)));
         }
         if name == "video" {
